@@ -455,6 +455,9 @@ class ConcatHistories(Contract):
         [("add", 0, "Au"), ("add", 1, "Au"), ("add", 1, "Cu"), ("copy_other_edit", 0, ""), ("update", 1, "Au"), ("reopen", 0, "")],
         [("add", 0, "Au"), ("add", 0, "Cu"), ("add", 1, "Au"), ("reopen", 0, ""), ("copy_other_edit", 0, ""), ("add", 1, "Cu"), ("reopen", 0, "")],
         [("add_text", 0, "Au"), ("add", 0, "Au"), ("add_text", 1, "Au"), ("update_text", 1, "Au"), ("add_text", 1, "Cu"), ("reopen", 0, "")],
+        # a later session adds data to a hole before anything of it has been read
+        [("add", 0, "Au"), ("reopen", 0, ""), ("add", 0, "Cu"), ("reopen", 0, "")],
+        [("add", 1, "Au"), ("add_note", 1, "Cu"), ("reopen", 0, ""), ("add_note", 1, "Au"), ("add", 1, "Cu"), ("reopen", 0, "")],
         [("add", 0, "Au"), ("add", 1, "Au"), ("rename", 0, "Au"), ("reopen", 0, ""), ("update", 1, "Au"), ("rename", 1, "Au"), ("reopen", 0, "")],
         [("add", 0, "Au"), ("add", 0, "Cu"), ("reopen", 0, ""), ("rename", 0, "Cu"), ("add", 0, "Cu"), ("reopen", 0, "")],
         [("add", 0, "Au"), ("group_comment", 0, ""), ("reopen", 0, ""), ("group_comment_remove", 0, ""), ("reopen", 0, "")],
